@@ -200,7 +200,7 @@ func checkCase(c rtCase) (what, detail string) {
 
 	// ---- (d) kit decrypts a document produced by the independent implementation
 	m := refenc.Manifest{HasKeyName: manifestK != "" && !c.RefOmitK, KeyName: manifestK, KW: kwID(string(c.Alg)), Cipher: c.RefCipher, NoncePrefix: refNP}
-	wfk, err := v.wrapKey(refFK, string(c.Alg))
+	wfk, err := v.wrapKey(refFK, canonical(string(c.Alg)))
 	if err != nil {
 		return "harness", fmt.Sprintf("vault could not wrap the reference file key: %v", err)
 	}
